@@ -151,20 +151,25 @@ Definition piece (lastcr : bool) (addcr : bool) (d : bytes) : Cres (list bytes *
   Ok (w0, lastcr', ws ++ [sub buf' pos rlen ++ (if addcr && lastcr' then [CR] else [])]).
 
 (** * qsmtpd/data.c: smtp_bdat *)
-Inductive err := E0 | EDONE | EMSGSIZE | EPIPE | EBADF | EIO.
+Inductive err := E0 | EDONE | EMSGSIZE | EPIPE | EBADF | EIO | EINVAL | E2BIG | ENOSPC | EFBIG | ENOMEM.
 Definition err_eqb (a b : err) : bool :=
   match a, b with
-  | E0, E0 | EDONE, EDONE | EMSGSIZE, EMSGSIZE | EPIPE, EPIPE | EBADF, EBADF | EIO, EIO => true
+  | E0, E0 | EDONE, EDONE | EMSGSIZE, EMSGSIZE | EPIPE, EPIPE | EBADF, EBADF | EIO, EIO
+  | EINVAL, EINVAL | E2BIG, E2BIG | ENOSPC, ENOSPC | EFBIG, EFBIG | ENOMEM, ENOMEM => true
   | _, _ => false
   end.
-Inductive comst := CsRcpt | CsBdat | CsHelo.      (* 0x0040, 0x0800, 0x0010 *)
+(** comstate: 0x0040 (after RCPT TO; [qf] = the queue_init() of this transaction will fail: part of the
+    environment, kept here so that it can differ per transaction), 0x0800, 0x0010 *)
+Inductive comst := CsRcpt (qf : bool) | CsBdat | CsHelo.
 
 Inductive ev :=
 | EvInit | EvHdr | EvHBadf | EvQ (b : bytes) | EvQBadf | EvQFail
 | EvReply (code : nat) | EvEnv (n : nat) | EvReset | EvFree | EvTarpit
-| EvRc (e : err) | Ev503.
+| EvRc (e : err) | Ev503
+| EvBegin (pos : nat) | EvRsetOk.      (* session scripts: start of a transaction (stream octets consumed so far), RSET *)
 
-Record rxcfg := mk_cfg { c_qinit_fail : bool; c_wfail : option nat; c_maxbytes : nat; c_rs : nat (* sizeof(inbuf) *);
+(** [c_wfail = Some (k, e)]: the queue write() with index k fails with errno e *)
+Record rxcfg := mk_cfg { c_wfail : option (nat * err); c_maxbytes : nat; c_rs : nat (* sizeof(inbuf) *);
                           c_fix : bool (* the repaired smtp_bdat *) }.
 
 Record rxst := mk_rx {
@@ -180,7 +185,7 @@ Definition q_write (cfg : rxcfg) (s : rxst) (b : bytes) : option err * rxst * li
   let s' := mk_rx (r_com s) (r_lastcr s) (r_bdaterr s) (r_msgsize s) (r_goodrcpt s) (r_qdata s) (r_qhdr s)
                   (S (r_wcount s)) (r_net s) in
   match c_wfail cfg with
-  | Some k => if Nat.eqb k (r_wcount s) then (Some EPIPE, s', [EvQFail]) else (None, s', [EvQ b])
+  | Some (k, e) => if Nat.eqb k (r_wcount s) then (Some e, s', [EvQFail]) else (None, s', [EvQ b])
   | None => (None, s', [EvQ b])
   end.
 
@@ -197,13 +202,13 @@ Fixpoint q_writes (cfg : rxcfg) (s : rxst) (bs : list bytes) : option err * rxst
 Inductive loop_end := LoopOk | LoopErrWrite (e : err) | LoopDied.
 
 (** the [while (chunksize > 0)] loop *)
-Fixpoint chunk_loop (fuel : nat) (cfg : rxcfg) (last : bool) (chunksize : nat) (s : rxst) (evs : list ev)
+Fixpoint chunk_loop (fuel : nat) (cfg : rxcfg) (last : bool) (chunksize : N) (s : rxst) (evs : list ev)
   : Cres (loop_end * rxst * list ev) :=
-  if Nat.eqb chunksize 0 then Ok (LoopOk, s, evs) else
+  if N.eqb chunksize 0 then Ok (LoopOk, s, evs) else
   match fuel with
   | O => OutOfFuel
   | S f =>
-      let num := if Nat.leb (c_rs cfg) chunksize then c_rs cfg - RX_READ_BACK else chunksize in
+      let num := if N.leb (N.of_nat (c_rs cfg)) chunksize then c_rs cfg - RX_READ_BACK else N.to_nat chunksize in
       do r <- net_readbin (c_rs cfg) num (r_net s);
       let '(rd, net') := r in
       let s1 := set_net s net' in
@@ -216,9 +221,9 @@ Fixpoint chunk_loop (fuel : nat) (cfg : rxcfg) (last : bool) (chunksize : nat) (
       | RData d =>
           let chunk := length d in
           if Nat.eqb chunk 0 then chunk_loop f cfg last chunksize s1 evs else
-          if Nat.ltb chunksize chunk then Crash 53 else
+          if N.ltb chunksize (N.of_nat chunk) then Crash 53 else
           (* unrepaired: if (LAST && lastcr && (chunksize == 0)) pos[rlen++] = CR; *)
-          do p <- piece (r_lastcr s1) (negb (c_fix cfg) && last && Nat.eqb (chunksize - chunk) 0) d;
+          do p <- piece (r_lastcr s1) (negb (c_fix cfg) && last && N.eqb (chunksize - N.of_nat chunk) 0) d;
           let '(w0, lastcr', ws) := p in
           let s2 := mk_rx (r_com s1) (r_lastcr s1) (r_bdaterr s1) (r_msgsize s1 + chunk) (r_goodrcpt s1)
                           (r_qdata s1) (r_qhdr s1) (r_wcount s1) (r_net s1) in
@@ -231,7 +236,7 @@ Fixpoint chunk_loop (fuel : nat) (cfg : rxcfg) (last : bool) (chunksize : nat) (
               let '(wr, s5, wevs) := q_writes cfg s4 ws in
               match wr with
               | Some e => Ok (LoopErrWrite e, s5, evs ++ wevs0 ++ wevs)
-              | None => chunk_loop f cfg last (chunksize - chunk) s5 (evs ++ wevs0 ++ wevs)
+              | None => chunk_loop f cfg last (chunksize - N.of_nat chunk) s5 (evs ++ wevs0 ++ wevs)
               end
           end
       end
@@ -242,28 +247,35 @@ Definition freedata (s : rxst) : rxst :=
 Definition queue_reset (s : rxst) : rxst :=
   mk_rx (r_com s) (r_lastcr s) (r_bdaterr s) (r_msgsize s) (r_goodrcpt s) false false (r_wcount s) (r_net s).
 
-(** the err_write label *)
-Definition err_write (s : rxst) (evs : list ev) : option err * rxst * list ev :=
-  (Some EDONE, freedata (queue_reset s), evs ++ [EvReset; EvFree; EvReply 451]).
+(** the err_write label; [e] = errno of the failed write *)
+Definition err_write (e : err) (s : rxst) (evs : list ev) : option err * rxst * list ev :=
+  let s' := freedata (queue_reset s) in
+  let rc := match e with ENOSPC | EFBIG => EMSGSIZE | _ => e end in
+  match rc with
+  | EMSGSIZE | E2BIG | ENOMEM => (Some rc, s', evs ++ [EvReset; EvFree])
+  | _ => (Some EDONE, s', evs ++ [EvReset; EvFree; EvReply 451])
+  end.
 
-(** smtp_bdat() for "BDAT size [LAST]"; result [None] = the process died (connection closed) *)
-Definition smtp_bdat (cfg : rxcfg) (size : nat) (last : bool) (s : rxst) : Cres (option err * rxst * list ev) :=
-  if negb (r_goodrcpt s) then Ok (Some EDONE, s, [EvTarpit; EvReply 554]) else
-  let '(s1, ev1) :=
-    match r_com s with
-    | CsBdat => (s, [])
-    | _ =>
-        (* msgsize = 0; comstate = 0x0800; lastcr = 0; bdaterr = queue_init(); if (!bdaterr) bdaterr = write_received(1) *)
-        if c_qinit_fail cfg then
-          (mk_rx CsBdat false EDONE 0 (r_goodrcpt s) (r_qdata s) (r_qhdr s) (r_wcount s) (r_net s), [EvInit])
-        else
-          (mk_rx CsBdat false E0 0 (r_goodrcpt s) true true (r_wcount s) (r_net s), [EvInit; EvHdr])
-    end in
-  do r <- chunk_loop (S size) cfg last size s1 ev1;
+(** the start of a transaction: [if (comstate != 0x0800) { msgsize = 0; comstate = 0x0800; lastcr = 0;
+    bdaterr = queue_init(); if (!bdaterr) bdaterr = write_received(1); }] *)
+Definition bdat_init (s : rxst) : rxst * list ev :=
+  match r_com s with
+  | CsBdat => (s, [])
+  | com =>
+      if match com with CsRcpt qf => qf | _ => false end then
+        (mk_rx CsBdat false EDONE 0 (r_goodrcpt s) (r_qdata s) (r_qhdr s) (r_wcount s) (r_net s), [EvInit])
+      else
+        (mk_rx CsBdat false E0 0 (r_goodrcpt s) true true (r_wcount s) (r_net s), [EvInit; EvHdr])
+  end.
+
+(** smtp_bdat() behind the argument parser, for "BDAT size [LAST]"; result [None] = the process died (connection closed) *)
+Definition bdat_rest (cfg : rxcfg) (size : N) (last : bool) (s1 : rxst) (ev1 : list ev) : Cres (option err * rxst * list ev) :=
+  (* every round of the loop takes at least one octet from the connection or ends it *)
+  do r <- chunk_loop (S (length (n_ln (r_net s1)) + length (n_stream (r_net s1)))) cfg last size s1 ev1;
   let '(le, s2, ev2) := r in
   match le with
   | LoopDied => Ok (None, s2, ev2)
-  | LoopErrWrite _ => Ok (err_write s2 ev2)
+  | LoopErrWrite e => Ok (err_write e s2 ev2)
   | LoopOk =>
       (* the repaired code: a CR held back at the very end of the data *)
       let '(wr, s3, ev3) :=
@@ -273,7 +285,7 @@ Definition smtp_bdat (cfg : rxcfg) (size : nat) (last : bool) (s : rxst) : Cres 
                      (r_goodrcpt s') (r_qdata s') (r_qhdr s') (r_wcount s') (r_net s'), ev2 ++ e')
         else (None, s2, ev2) in
       match wr with
-      | Some _ => Ok (err_write s3 ev3)
+      | Some e => Ok (err_write e s3 ev3)
       | None =>
           let '(s4, ev4) :=
             if Nat.ltb (c_maxbytes cfg) (r_msgsize s3) && err_eqb (r_bdaterr s3) E0 then
@@ -292,6 +304,10 @@ Definition smtp_bdat (cfg : rxcfg) (size : nat) (last : bool) (s : rxst) : Cres 
       end
   end.
 
+Definition smtp_bdat (cfg : rxcfg) (size : N) (last : bool) (s : rxst) : Cres (option err * rxst * list ev) :=
+  if negb (r_goodrcpt s) then Ok (Some EDONE, s, [EvTarpit; EvReply 554]) else
+  let '(s1, ev1) := bdat_init s in bdat_rest cfg size last s1 ev1.
+
 (** * the harness' command loop (stands for the dispatcher in qsmtpd.c and for net_read
     leaving pipelined octets in the line buffer) *)
 Definition prebuffer (pre : nat) (n : netst) : netst :=
@@ -309,7 +325,7 @@ Fixpoint run_cmds (cfg : rxcfg) (cmds : list (nat * bool * nat)) (s : rxst) (evs
       match r_com s0 with
       | CsHelo => run_cmds cfg rest s0 (evs ++ [Ev503])
       | _ =>
-          do r <- smtp_bdat cfg size last s0;
+          do r <- smtp_bdat cfg (N.of_nat size) last s0;
           let '(rc, s1, e1) := r in
           match rc with
           | None => Ok (true, s1, evs ++ e1)
@@ -318,9 +334,115 @@ Fixpoint run_cmds (cfg : rxcfg) (cmds : list (nat * bool * nat)) (s : rxst) (evs
       end
   end.
 
-Definition rx_init (stream : bytes) (cuts : list nat) (rfail : option nat) : rxst :=
-  mk_rx CsRcpt false E0 0 true false false 0 (mk_net [] stream cuts rfail).
+Definition rx_init (qf : bool) (stream : bytes) (cuts : list nat) (rfail : option nat) : rxst :=
+  mk_rx (CsRcpt qf) false E0 0 true false false 0 (mk_net [] stream cuts rfail).
 
-Definition rx_session (cfg : rxcfg) (cmds : list (nat * bool * nat)) (stream : bytes) (cuts : list nat)
+(** [qf]: queue_init() fails *)
+Definition rx_session (cfg : rxcfg) (qf : bool) (cmds : list (nat * bool * nat)) (stream : bytes) (cuts : list nat)
            (rfail : option nat) : Cres (bool * rxst * list ev) :=
-  run_cmds cfg cmds (rx_init stream cuts rfail) [].
+  run_cmds cfg cmds (rx_init qf stream cuts rfail) [].
+
+(** * the argument of BDAT (qsmtpd/data.c:smtp_bdat, in front of everything else) *)
+(** linein.s is a C string: it ends at the first NUL of the line *)
+Fixpoint cstr (l : bytes) : bytes :=
+  match l with [] => [] | b :: t => if N.eqb b 0 then [] else b :: cstr t end.
+
+Definition ULLONG_MAX : N := 18446744073709551615%N.
+
+(** strtoull(s, &more, 10) on a string that starts with a digit (no blank, no sign):
+    the value while it fits, whether it overflowed (errno = ERANGE), and [more] *)
+Fixpoint strtoull_digits (s : bytes) (acc : N) (ovf : bool) : N * bool * bytes :=
+  match s with
+  | b :: r => if N.leb BDAT_DIGIT_LO b && N.leb b BDAT_DIGIT_HI
+              then let v := (acc * N.of_nat BDAT_BASE + (b - BDAT_DIGIT_LO))%N in
+                   strtoull_digits r v (ovf || N.ltb ULLONG_MAX v)
+              else (acc, ovf, s)
+  | [] => (acc, ovf, [])
+  end.
+
+(** strcasecmp(a, b) == 0 for C strings (C locale) *)
+Fixpoint strcaseeq (a b : bytes) : bool :=
+  match a, b with
+  | [], [] => true
+  | x :: a', y :: b' => N.eqb (to_lower x) (to_lower y) && strcaseeq a' b'
+  | _, _ => false
+  end.
+
+(** [None] = return EINVAL; [Some (chunksize, LAST)] otherwise.  The dispatcher has made sure that
+    the line is at least "BDAT" and a blank, so linein.s + 5 is inside the string or at its NUL. *)
+Definition parse_bdat (line : bytes) : option (N * bool) :=
+  let arg := skipn BDAT_ARG_OFF (cstr line) in
+  let c5 := hd 0%N arg in
+  if N.ltb c5 BDAT_DIGIT_LO || N.ltb BDAT_DIGIT_HI c5 then None else
+  let '(v, ovf, more) := strtoull_digits arg 0%N false in
+  if ovf then None else
+  match more with
+  | [] => Some (v, false)
+  | m :: rest => if negb (N.eqb m BDAT_SEP) then None
+                 else if strcaseeq rest BDAT_LAST_WORD then Some (v, true) else None
+  end.
+
+(** smtp_bdat() as called by the dispatcher, [line] = linein *)
+Definition smtp_bdat_line (cfg : rxcfg) (line : bytes) (s : rxst) : Cres (option err * rxst * list ev) :=
+  if negb (r_goodrcpt s) then Ok (Some EDONE, s, [EvTarpit; EvReply 554]) else
+  match parse_bdat line with
+  | None => Ok (Some EINVAL, s, [])
+  | Some (n, last) => smtp_bdat cfg n last s
+  end.
+
+(** * sessions: the BDAT row of smtploop(), RSET, and the start of a transaction (harness stand-ins) *)
+Definition com_bit (c : comst) : N := match c with CsRcpt _ => 64%N | CsBdat => 2048%N | CsHelo => 16%N end.
+
+Inductive sop := OpLine (pre : nat) (line : bytes) | OpRset (pre : nat) | OpBegin (pre : nat) (qf : bool).
+
+(** smtploop() for a line that names BDAT: [None] = died *)
+Definition dispatch_bdat (cfg : rxcfg) (line : bytes) (s : rxst) : Cres (option unit * rxst * list ev) :=
+  if N.eqb (N.land (com_bit (r_com s)) BDAT_MASK) 0 then Ok (Some tt, s, [Ev503]) else
+  if Nat.ltb RX_CMD_LINE_MAX (length line) then Ok (Some tt, s, [EvRc E2BIG]) else
+  if negb (N.eqb (nth BDAT_NAME_LEN (cstr line) 0%N) BDAT_SEP) then Ok (Some tt, s, [EvRc EINVAL]) else
+  do r <- smtp_bdat_line cfg line s;
+  let '(rc, s1, e1) := r in
+  match rc with
+  | None => Ok (None, s1, e1)
+  | Some e => Ok (Some tt, s1, e1 ++ [EvRc e])
+  end.
+
+Definition do_rset (s : rxst) : rxst * list ev :=
+  let '(s1, e1) := match r_com s with CsBdat => (queue_reset s, [EvReset]) | _ => (s, []) end in
+  (mk_rx CsHelo (r_lastcr s1) (r_bdaterr s1) (r_msgsize s1) false (r_qdata s1) (r_qhdr s1) (r_wcount s1) (r_net s1),
+   e1 ++ [EvFree; EvReply 250; EvRsetOk]).
+
+Definition do_begin (slen : nat) (qf : bool) (s : rxst) : rxst * list ev :=
+  match r_com s with
+  | CsHelo =>
+      (mk_rx (CsRcpt qf) (r_lastcr s) (r_bdaterr s) (r_msgsize s) true (r_qdata s) (r_qhdr s) (r_wcount s) (r_net s),
+       [EvBegin (slen - (length (n_ln (r_net s)) + length (n_stream (r_net s))))])
+  | _ => (s, [Ev503])
+  end.
+
+Fixpoint run_script (cfg : rxcfg) (slen : nat) (ops : list sop) (s : rxst) (evs : list ev)
+  : Cres (bool * rxst * list ev) :=
+  match ops with
+  | [] => Ok (false, s, evs)
+  | OpLine pre line :: rest =>
+      let s0 := set_net s (prebuffer pre (r_net s)) in
+      do r <- dispatch_bdat cfg line s0;
+      let '(alive, s1, e1) := r in
+      match alive with
+      | None => Ok (true, s1, evs ++ e1)
+      | Some _ => run_script cfg slen rest s1 (evs ++ e1)
+      end
+  | OpRset pre :: rest =>
+      let s0 := set_net s (prebuffer pre (r_net s)) in
+      let '(s1, e1) := do_rset s0 in run_script cfg slen rest s1 (evs ++ e1)
+  | OpBegin pre qf :: rest =>
+      let s0 := set_net s (prebuffer pre (r_net s)) in
+      let '(s1, e1) := do_begin slen qf s0 in run_script cfg slen rest s1 (evs ++ e1)
+  end.
+
+Definition rxs_init (stream : bytes) (cuts : list nat) (rfail : option nat) : rxst :=
+  mk_rx CsHelo false E0 0 false false false 0 (mk_net [] stream cuts rfail).
+
+Definition rx_script (cfg : rxcfg) (ops : list sop) (stream : bytes) (cuts : list nat) (rfail : option nat)
+  : Cres (bool * rxst * list ev) :=
+  run_script cfg (length stream) ops (rxs_init stream cuts rfail) [].
